@@ -431,7 +431,7 @@ def run(chk):
         "every varying operand (loop-carried phi or fill-level field) is advanced by the result; every consumer of "
         "sqfs_istream_t advances by an amount derived from what get_buffered_data delivered and tests its result; the "
         "archive layer treats end of input inside a record as an error and compares every read count with the "
-        "requested size (T1/T2). Equality of the outputs under all chunkings is value-level and not decided.")
+        "requested size (T1/T2). Equality of the outputs under all chunkings is value-level and not decided. A function that returns the transfer count of a single system call is a chunk primitive: the loop, exit and progress obligations are checked at its callers.")
     chk.assumptions = ["POSIX semantics of short counts and EINTR"]
     progs = {t: load_program(t) for t in ("gensquashfs", "tar2sqfs", "sqfs2tar", "rdsquashfs", "sqfsdiff")}
     confinement(chk, progs)
